@@ -6,7 +6,8 @@ EXTRACTED syntactically from /repo (a construct the extractor does not understan
   * the document built by each `impl OutputFormatter for T { fn format_json }`: the `json!({…})` literal (keys, `self.f`
     members, literals, `if … { "a" } else { "b" }`), or `serde_json::to_string(self)`;
   * main.rs: `match cli.command` dispatch (command -> handler fn, with the literal arguments `""`/`true` bound to the
-    handler's `replace`/`dry_run` parameters), the `Ok`/`Err` exit-code mapping, every `process::exit` before the
+    handler's `replace`/`dry_run` parameters), the `Ok`/`Err` exit-code mapping (Ok: one unconditional literal code plus
+    the code(s) under the interrupted flag; Err: its own `exit_code` chain, never conditioned on the flag), every `process::exit` before the
     dispatch, stdout sites of `main`/`check_and_auto_init`/`do_init`/`prompt_for_init_with_input`;
   * per handler fn: the ordered list of events (stdout / stderr emission sites, `return`, `?`/`return Err` exits, calls
     of the effectful operations) each with the chain of enclosing `if`/`match output` conditions; the condition TEXT is
@@ -528,15 +529,62 @@ def parse_main(repo):
     ro = rm.end() - 1
     rc = _rs.match_close(b, ro)
     rtext = src[ro:rc + 1]
-    okm = re.search(r"Ok\(\(\)\)\s*=>\s*(?:std::)?process::exit\((\d+)\)", rtext)
-    if not okm:
-        raise ParseError("main.rs: Ok arm does not exit with a literal code")
-    erm = re.search(r"Err\(e\)\s*=>\s*\{", rtext)
-    if not erm:
-        raise ParseError("main.rs: Err arm not found")
-    err_events = _rs.events(src, b, ro + 1, rc)
-    err_out = [e for e in err_events if e["kind"] == "out"]
-    err_err = [e for e in err_events if e["kind"] == "err"]
+    # the arms of `match result`: every exit with the conditions it sits under, stdout / stderr sites per arm
+    INTERRUPT = {"was_interrupted", "interrupted.load(Ordering::SeqCst)"}
+    arm_events = _rs.events(src, b, rm.start(), rc + 1)
+
+    def arm_of(ev):
+        g = [t for t, _ in ev["guard"]]
+        if not g or not g[0].startswith("match result: "):
+            raise ParseError(f"main.rs: event of `match result` outside its arms: {ev}")
+        return g[0][len("match result: "):], ev["guard"][1:]
+    ok_exits, ok_out, ok_err, err_exits, err_out, err_err = [], 0, 0, [], [], []
+    for ev in arm_events:
+        if ev["kind"] not in ("exit", "out", "err"):
+            continue
+        arm, inner = arm_of(ev)
+        if arm == "Ok(())":
+            if ev["kind"] == "out":
+                ok_out += 1
+            elif ev["kind"] == "err":
+                ok_err += 1
+            else:
+                if not re.fullmatch(r"\d+", ev["code"]):
+                    raise ParseError(f"main.rs: Ok arm exits with a non-literal code {ev['code']!r}")
+                conds = []
+                for t, pos in inner:
+                    if t not in INTERRUPT or not pos:
+                        raise ParseError(f"main.rs: Ok arm exits under a condition the model does not know: {t!r}")
+                    conds.append(t)
+                ok_exits.append((bool(conds), int(ev["code"])))
+        elif arm == "Err(e)":
+            if ev["kind"] == "out":
+                err_out.append(ev)
+            elif ev["kind"] == "err":
+                err_err.append(ev)
+            else:
+                err_exits.append((ev["code"], [t for t, _ in inner]))
+        else:
+            raise ParseError(f"main.rs: unexpected arm of `match result`: {arm!r}")
+    plain = [c for i, c in ok_exits if not i]
+    if len(plain) != 1:
+        raise ParseError(f"main.rs: Ok arm does not end in exactly one unconditional exit with a literal code: {ok_exits}")
+    ok_interrupted = [c for i, c in ok_exits if i]
+    if "was_interrupted" in rtext and not re.search(r"let\s+was_interrupted\s*=\s*interrupted\.load\(Ordering::SeqCst\)\s*;", src[mc:ro]):
+        raise ParseError("main.rs: `was_interrupted` is not the interrupted flag read before `match result`")
+    # an interrupted-flag check between the dispatch and `match result` (the shape before 279b830) pre-empts both arms
+    for ev in _rs.events(src, b, mc + 1, rm.start()):
+        if ev["kind"] == "exit":
+            g = [t for t, _ in ev["guard"]]
+            if len(g) != 1 or g[0] not in INTERRUPT or not re.fullmatch(r"\d+", ev["code"]):
+                raise ParseError(f"main.rs: unexpected exit between the dispatch and `match result`: {ev}")
+            ok_interrupted.append(int(ev["code"]))
+        elif ev["kind"] == "out":
+            raise ParseError("main.rs: stdout emission between the dispatch and `match result`")
+    if [e for e in err_exits if e != ("exit_code", [])]:
+        raise ParseError(f"main.rs: Err arm does not simply exit with its own exit_code: {err_exits}")
+    if not err_exits:
+        raise ParseError("main.rs: Err arm does not exit")
     chain = re.search(r"let\s+exit_code\s*=\s*(.*?);\s*(?:std::)?process::exit\(exit_code\)", rtext, re.S)
     if not chain:
         raise ParseError("main.rs: exit_code chain not found")
@@ -567,10 +615,10 @@ def parse_main(repo):
         for ev in evs:
             if ev["kind"] == "exit":
                 pre.append((fn, ev["code"], [t for t, _ in ev["guard"]][-1:]))
-    interrupted = re.compile(r"if\s+interrupted\.load\(Ordering::SeqCst\)\s*\{").search(b, mc, bc)
-    return {"dispatch": dispatch, "ok_code": int(okm.group(1)), "rules": rules, "default": int(dm.group(1)),
+    return {"dispatch": dispatch, "ok_code": plain[0], "ok_interrupted": ok_interrupted, "ok_arm_stdout": ok_out,
+            "rules": rules, "default": int(dm.group(1)),
             "err_arm_stdout": len(err_out), "err_arm_stderr": len(err_err), "pre_exits": pre,
-            "helper_stdout": helper_out, "interrupt_check": bool(interrupted)}
+            "helper_stdout": helper_out}
 
 
 def core_stdout_sites(repo):
@@ -750,6 +798,10 @@ def run():
           "/-- main.rs `match result`: exit code of the Ok arm; Err arm: (substrings of the message, code) in order, default code;",
           "    number of stdout / stderr emission sites in the Err arm -/",
           f"def exitOk : Nat := {m['ok_code']}",
+          "/-- codes with which main leaves after a command that returned Ok when the interrupted flag is set (SIGINT/SIGTERM",
+          "    arrived meanwhile); a command that returned Err always reports its own code (checked by the translator) -/",
+          "def exitOkInterrupted : List Nat := [" + ", ".join(str(c) for c in m["ok_interrupted"]) + "]",
+          f"def okArmStdoutSites : Nat := {m['ok_arm_stdout']}",
           "def exitRules : List (List Name × Nat) := [" + ", ".join(
               "([" + ", ".join(nm(n) for n in needles) + f"], {code})" for needles, code in m["rules"]) + "]",
           f"def exitDefault : Nat := {m['default']}",
